@@ -8,6 +8,8 @@ Driver for the holder / sensitivity-variator model (exe drv_vary).  `<op> <one J
   unpack [level, n, variations]               -> dict | reject:kind   processVariations
   vary   {maps, sim, programs, vw, out, baseline, sens, level, n, vars}
                                               -> [ {sim, programs, vw, out}, ... ] | reject:kind
+  hyp    [mapping, dict, n, vars]             -> 1 | 0   `vars.wf` and `varsOK` for every set i < n
+                                                         (hypotheses of vw_frame / vw_varied)
 -/
 open LdarModel.Tree LdarModel.Json LdarModel.Holder
 
@@ -83,6 +85,12 @@ def step (_ : Unit) (op payload : String) : Unit × String :=
       else ((), match processVariations level n.toNat pv with
         | .ok r => render (.obj r)
         | .error e => "reject:" ++ e.name)
+    | "hyp", .list (.cons m (.cons (.obj d) (.cons (.int n) (.cons (.obj vars) .nil)))) =>
+      match smOf m with
+      | some sm =>
+        let ok := vars.wf && (List.range n.toNat).all (fun i => varsOK sm n.toNat i d vars)
+        ((), if ok then "1" else "0")
+      | none => ((), "bad-op")
     | "vary", .obj req =>
       match runVary req with
       | some r => ((), r)
